@@ -737,9 +737,31 @@ mod misuse {
         SetBad(usize),
         Eval,
         D(usize),
+        /// the environment changes DURING the history: closure `slot` starts returning vectors of length `len`
+        Break(usize, usize),
+        /// every closure returns correctly sized vectors again
+        Heal,
     }
     pub fn ops() -> Vec<Op> {
-        vec![Op::Eval, Op::D(0), Op::D(1), Op::Set(0), Op::Set(1), Op::SetBad(0), Op::SetBad(1), Op::SetBad(3), Op::SetBad(4), Op::D(2), Op::D(3), Op::D(usize::MAX)]
+        vec![
+            Op::Eval,
+            Op::D(0),
+            Op::D(1),
+            Op::Set(0),
+            Op::Set(1),
+            Op::SetBad(0),
+            Op::SetBad(1),
+            Op::SetBad(3),
+            Op::SetBad(4),
+            Op::D(2),
+            Op::D(3),
+            Op::D(usize::MAX),
+            Op::Break(0, N - 1),
+            Op::Break(1, N + 1),
+            Op::Break(3, 0),
+            Op::Break(5, 2 * N),
+            Op::Heal,
+        ]
     }
     pub const ALPHAS: [[f64; 2]; 2] = [[3.0, 7.0], [-1.5, 0.25]];
 
@@ -749,11 +771,19 @@ mod misuse {
             Op::SetBad(l) => json!({"set_params_len": l}),
             Op::Eval => json!("eval"),
             Op::D(k) => json!({"eval_partial_deriv": if *k == usize::MAX { json!("usize::MAX") } else { json!(k) }}),
+            Op::Break(s, l) => json!({"break": [s, l]}),
+            Op::Heal => json!("heal"),
         }
     }
     pub fn op_parse(v: &Value) -> Op {
         if v == "eval" {
             return Op::Eval;
+        }
+        if v == "heal" {
+            return Op::Heal;
+        }
+        if let Some(b) = v.get("break") {
+            return Op::Break(b[0].as_u64().unwrap() as usize, b[1].as_u64().unwrap() as usize);
         }
         if let Some(a) = v.get("set_params") {
             let a0 = a[0].as_f64().unwrap();
@@ -776,13 +806,26 @@ mod misuse {
         for (slot, len) in bad {
             env.bad[*slot].store(*len, Ordering::Relaxed);
         }
-        let badlen = |slot: usize| bad.iter().find(|(s, _)| *s == slot).map(|(_, l)| *l);
+        let mut bad: Vec<(usize, usize)> = bad.to_vec();
         let mut cur = vec![2.0, 5.0];
         let mut steps = 0u64;
         for (si, op) in seq.iter().enumerate() {
             steps += 1;
             let at = format!("step {} ({:?})", si, op);
+            let badnow = bad.clone();
+            let badlen = |slot: usize| badnow.iter().find(|(s, _)| *s == slot).map(|(_, l)| *l);
             match op {
+                Op::Break(slot, len) => {
+                    bad.retain(|(s, _)| s != slot);
+                    bad.push((*slot, *len));
+                    env.bad[*slot].store(*len, Ordering::Relaxed);
+                }
+                Op::Heal => {
+                    bad.clear();
+                    for s in 0..6 {
+                        env.bad[s].store(GOOD, Ordering::Relaxed);
+                    }
+                }
                 Op::Set(i) => {
                     if let Err(e) = m.set_params(DVector::from_vec(ALPHAS[*i].to_vec())) {
                         return Err(("valid-set-params-rejected".into(), format!("{}: {:?}", at, e)));
